@@ -125,7 +125,7 @@ def r3_35(ctx):
         ctx.ob("go-arm:returns-to-loop", ok_nodiv, b.where(b.term_loc(s)), "the go arm contains no process exit and falls through to the next command")
     fb = f.body(FIND)
     fex = Exprs(fb)
-    bp = [i for i in range(1, fb.arg_count + 1) if fb.local_ty(i) == "&mut board::BoardState"]
+    bp = [i for i in range(1, fb.arg_count + 1) if fb.local_ty(i) in ("&mut board::BoardState", "&board::BoardState")]
     n = 0
     for loc, st in fb.iter_stmts():
         if st["k"] == "assign" and st["place"]["local"] == 0 and not st["place"]["proj"]:
